@@ -1,11 +1,14 @@
-(* Proofs of the statements of Proofs/GenbasEcpDefs.v (CFOUR / GENBAS, ECP part and whole file).  The general round trip
-   with ECPs (c4ecp_roundtrip_stmt) is NOT proved here; proved are the whole-file theorems without ECPs, the instances and the
-   counterexamples. *)
+(* Proofs of the statements of Proofs/GenbasEcpDefs.v (CFOUR / GENBAS, ECP part and whole file): the whole-file theorems
+   without ECPs (sections 1-3), the instances and the counterexamples (section 4), and the general round trip with ECPs
+   c4ecp_roundtrip_exact : c4ecp_roundtrip_stmt with its companions c4ecp_write_total, c4ecp_roundtrip_parts and
+   c4ecp_no_number_lost (sections 5-13). *)
 From BSE Require Import Model.Val Model.Text Model.Basis Model.Manip Model.Matrix Gen.GenLut Model.Lut Model.Elements
                         Model.Nwchem Model.NwchemEcp Model.Turbomole Model.TurbomoleEcp Model.Genbas Model.GenbasEcp
                         Proofs.MatrixDefs Proofs.NwchemDefs Proofs.NwchemEcpDefs Proofs.C20Finite Proofs.TurbomoleDefs
                         Proofs.TurbomoleEcpDefs Proofs.GenbasDefs Proofs.GenbasEcpDefs.
-From BSE Require Import Proofs.HeaderSpec Proofs.PruneFS Proofs.MatrixSpec Proofs.NwchemSpec Proofs.TurbomoleSpec Proofs.GenbasSpec.
+From BSE Require Import Proofs.HeaderSpec Proofs.PruneFS Proofs.MatrixSpec Proofs.NwchemSpec Proofs.NwchemEcpSpec Proofs.TurbomoleSpec
+                        Proofs.TurbomoleEcpSpec Proofs.GenbasSpec.
+Require Import Coq.Sorting.Permutation Coq.Sorting.Sorted Coq.ZArith.ZArith Coq.micromega.Lia.
 
 (* ================================================================== *)
 (* 1. no ECP: the text                                                 *)
@@ -163,6 +166,971 @@ Proof.
     + cbn [map pot_l cxe_d cxe_s cxe_p p_am hd]. repeat constructor; cbn [In]; intros H; repeat (destruct H as [H|H]; [discriminate H|]); exact H.
 Qed.
 
+(* ================================================================== *)
+(* 5. the letters of the ECP part: lut._amchar_map_hik on both sides   *)
+(* ================================================================== *)
+Definition hik_of (a : list Z) : string := match amint_to_char a false false with inr c => lower c | inl _ => "" end.
+
+Definition hik_check (l : Z) : bool :=
+  match amint_to_char [l] false false with
+  | inr s =>
+    match lower s with
+    | String c EmptyString =>
+      is_lower c && match amchar_to_int (String c EmptyString) false with
+                    | inr [l'] => Z.eqb l' l
+                    | _ => false
+                    end
+    | _ => false
+    end
+  | _ => false
+  end.
+Lemma hik_sweep : forallb hik_check (zrange 0 25) = true.
+Proof. vm_compute. reflexivity. Qed.
+
+Lemma hik_facts : forall l, (0 <= l < 25)%Z ->
+  exists s c, amint_to_char [l] false false = inr s /\ lower s = String c "" /\ is_lower c = true /\
+              amchar_to_int (String c "") false = inr [l].
+Proof.
+  intros l Hl. assert (Hin : In l (zrange 0 25)) by (apply zrange_In; lia).
+  pose proof (proj1 (forallb_forall _ _) hik_sweep l Hin) as H. unfold hik_check in H.
+  destruct (amint_to_char [l] false false) as [e|s]; [discriminate H|]. exists s.
+  destruct (lower s) as [|c [|c2 s2]]; try discriminate H.
+  exists c. apply andb_true_iff in H. destruct H as [H1 H2]. split; [reflexivity|]. split; [reflexivity|]. split; [exact H1|].
+  destruct (amchar_to_int (String c "") false) as [e|[|l' [|l2 r]]]; try discriminate H2.
+  apply Z.eqb_eq in H2. now subst.
+Qed.
+
+Lemma numhd_star : forall c, numhd c = true -> Ascii.eqb c "*" = false.
+Proof. intros c H. all_chars c; try reflexivity; discriminate H. Qed.
+
+(* a line that strip() leaves alone and that does not begin with `*` *)
+Definition sline (l : string) : Prop := strip_ws l = l /\ head_not_in "*" l.
+
+(* ================================================================== *)
+(* 6. the table of one potential (point places 6, 18, 25, no marker conversion) *)
+(* ================================================================== *)
+Definition crow (row : list cell) : string :=
+  match write_row row c4ecp_point_places true "" with inr l => l | inl _ => "" end.
+
+Lemma crow_facts : forall t, trip_ok t ->
+  write_row (tcellrow t) c4ecp_point_places true "" = inr (crow (tcellrow t)) /\
+  good_line (crow (tcellrow t)) /\ tokens_acc (crow (tcellrow t)) "" = ttokrow t.
+Proof.
+  intros t Ht. destruct (tcellrow_ok t Ht) as [Hok Hasc].
+  destruct (write_row_total (tcellrow t) c4ecp_point_places true "" Hok) as [line Hl].
+  { destruct t as [[x y] z]. cbn. lia. }
+  unfold crow. rewrite Hl. split; [reflexivity|]. split.
+  - apply (write_row_chars nobd eq_refl (tcellrow t) c4ecp_point_places true "" line); [|reflexivity|exact Hl].
+    rewrite Forall_forall in *. intros c Hc. apply cell_nobd; [apply Hok | apply Hasc]; exact Hc.
+  - rewrite (write_row_tokens_gen _ _ _ _ _ Hok (fun _ => eq_refl) Hl). destruct t as [[x y] z]. reflexivity.
+Qed.
+
+Definition cline (t : Z * string * string) : string := crow (tcellrow t).
+Definition cp (t : Z * string * string) : string := strip_ws (cline t).
+Definition creadrow (t : Z * string * string) : string * string * string :=
+  let '(x, y, z) := t in (Z_to_string x, norm false y, norm false z).
+
+Lemma cp_nline : forall t, trip_ok t -> nline (cp t).
+Proof.
+  intros t Ht. destruct (crow_facts t Ht) as [_ [_ Htok]]. destruct t as [[x y] z]. destruct Ht as [_ Hz]. cbn [fst snd] in Hz.
+  cbn [ttokrow] in Htok. destruct z as [|c z']; [discriminate Hz|].
+  unfold cp, cline. apply (tokens_nline _ c z' _ Htok). apply (floating_numhd c z' Hz).
+Qed.
+
+Lemma nline_sline : forall l, strip_ws l = l -> nline l -> sline l /\ starts_alpha l = inr false /\ l <> "".
+Proof.
+  intros l Hs [c [r [-> Hc]]]. destruct (numhd_facts c Hc) as [Ha _]. split; [|split; [|discriminate]].
+  - split; [exact Hs|]. exists c, r. split; [reflexivity|]. cbn [sany]. now rewrite (numhd_star c Hc).
+  - cbn [starts_alpha]. now rewrite Ha.
+Qed.
+
+Lemma cp_facts : forall t, trip_ok t ->
+  sline (cp t) /\ starts_alpha (cp t) = inr false /\ cp t <> "" /\ plain (cp t).
+Proof.
+  intros t Ht. pose proof (cp_nline t Ht) as Hn.
+  destruct (nline_sline (cp t) (strip_idem _) Hn) as [A [B C]].
+  split; [exact A|]. split; [exact B|]. split; [exact C | apply (nline_plain _ Hn)].
+Qed.
+
+Lemma cteline_row : forall t, trip_ok t -> teline (cp t) = inr (creadrow t).
+Proof.
+  intros t Ht. destruct (crow_facts t Ht) as [_ [_ Htok]].
+  unfold teline, split_ws, cp, cline. rewrite strip_idem.
+  pose proof (tokens_read false (crow (tcellrow t))) as H. cbn [conv_text] in H.
+  rewrite H, Htok. destruct t as [[x y] z]. cbn [ttokrow map creadrow]. rewrite norm_int. reflexivity.
+Qed.
+
+Lemma ctable_read : forall r g c, List.length g = List.length r -> List.length c = List.length r ->
+  Forall floating g -> Forall floating c ->
+  parse_ecp_table_crg (map cp (trip r g c)) = inr (r, map (norm false) g, [map (norm false) c]).
+Proof.
+  intros r g c Hg Hc Fg Fc. unfold floating in *.
+  assert (Hts : forall t, In t (trip r g c) -> trip_ok t).
+  { intros [[x y] z] Hin. destruct (trip_in _ _ _ _ _ _ Hin) as [_ [Hy Hz]]. rewrite Forall_forall in Fg, Fc.
+    split; cbn [fst snd]; [apply Fg, Hy | apply Fc, Hz]. }
+  rewrite parse_ecp_table_crg_unfold.
+  rewrite (mapM_map_ext _ _ _ teline cp (fun t => teline (cp t))) by reflexivity.
+  rewrite (mapM_map_ok _ _ _ creadrow (trip r g c)) by (intros t Hin; apply cteline_row, Hts, Hin).
+  unfold bind. cbv zeta. destruct (trip_proj r g c Hg Hc) as [P1 [P2 P3]].
+  assert (E1 : map (fun x => fst (fst x)) (map creadrow (trip r g c)) = map Z_to_string r).
+  { transitivity (map Z_to_string (map (fun t => fst (fst t)) (trip r g c))); [|now rewrite P1].
+    rewrite !map_map. apply map_ext. intros [[x y] z]. reflexivity. }
+  assert (E2 : map (fun x => snd (fst x)) (map creadrow (trip r g c)) = map (norm false) g).
+  { transitivity (map (norm false) (map (fun t => snd (fst t)) (trip r g c))); [|now rewrite P2].
+    rewrite !map_map. apply map_ext. intros [[x y] z]. reflexivity. }
+  assert (E3 : map snd (map creadrow (trip r g c)) = map (norm false) c).
+  { transitivity (map (norm false) (map snd (trip r g c))); [|now rewrite P3].
+    rewrite !map_map. apply map_ext. intros [[x y] z]. reflexivity. }
+  rewrite E1, E2, E3.
+  rewrite (forallb_true _ is_integer (map Z_to_string r)).
+  2:{ intros s Hs. apply in_map_iff in Hs. destruct Hs as [z [<- _]]. apply Z_to_string_int. }
+  rewrite (forallb_true _ is_floating (map (norm false) g)).
+  2:{ intros s Hs. apply in_map_iff in Hs. destruct Hs as [y [<- Hy]]. rewrite is_floating_norm.
+      rewrite Forall_forall in Fg. apply Fg, Hy. }
+  rewrite (forallb_true _ is_floating (map (norm false) c)).
+  2:{ intros s Hs. apply in_map_iff in Hs. destruct Hs as [y [<- Hy]]. rewrite is_floating_norm.
+      rewrite Forall_forall in Fc. apply Fc, Hy. }
+  cbn [negb]. rewrite map_map. rewrite (map_ext _ (fun z => z) (fun z => proj2 (Z_to_string_int z))), map_id. reflexivity.
+Qed.
+
+(* ================================================================== *)
+(* 7. the lines of the ECP part                                        *)
+(* ================================================================== *)
+Definition chead (mx : Z) (p : epot) : string :=
+  if Z.eqb (pot_l p) mx then hik_of (p_am p) else hik_of (p_am p) +++ "-" +++ hik_of [mx].
+Definition cprows (p : epot) : list string := map cline (ptrip p).
+Definition cpot_lines (mx : Z) (p : epot) : list string := chead mx p :: cprows p.
+Definition cinfo_p (n mx : Z) : string := "NCORE = " +++ Z_to_string n +++ "    LMAX = " +++ Z_to_string mx.
+Definition cinfo_line (n mx : Z) : string := "    " +++ cinfo_p n mx.
+Definition cecp_el_lines (name desc : string) (e : Z * (Z * list epot)) : list string :=
+  "*" :: sym_line name (fst e) :: ("# " +++ desc) :: "*" :: cinfo_line (fst (snd e)) (el_mx e) ::
+  flat_map (cpot_lines (el_mx e)) (ecp_written_order (snd (snd e))) ++ ["*"].
+Definition cecp_part (name desc : string) (ecps : list (Z * (Z * list epot))) : list string :=
+  match ecps with [] => [] | _ => "" :: "" :: "! Effective core Potentials" :: flat_map (cecp_el_lines name desc) ecps end.
+Definition cfile_lines (name desc : string) (els : list (Z * list sshell)) (ecps : list (Z * (Z * list epot))) : list string :=
+  all_lines name desc els ++ cecp_part name desc ecps.
+
+Lemma c4ecp_el_facts : forall z n pots, c4ecp_el_ok (z, (n, pots)) ->
+  (1 <= z <= 120)%Z /\ (0 <= n)%Z /\ pots <> [] /\ Forall ecp_pot_ok pots /\ NoDup (map pot_l pots) /\
+  (0 <= zmax (map pot_l pots) < 25)%Z /\
+  ecp_order pots = inr (ecp_written_order pots) /\ Forall ecp_pot_ok (ecp_written_order pots) /\
+  Permutation pots (ecp_written_order pots).
+Proof.
+  intros z n pots [Hz [Hn [Hne [Hok Hnd]]]].
+  destruct (written_order_ok pots Hne Hok Hnd) as [Eo [Hoo Hperm]].
+  repeat (split; [assumption|]). split; [|split; [exact Eo|split; [exact Hoo | exact Hperm]]].
+  assert (Hls : map pot_l pots <> []) by (destruct pots; [congruence | discriminate]).
+  destruct (zmax_facts _ Hls) as [Zin _]. apply in_map_iff in Zin. destruct Zin as [p [<- Hp]].
+  rewrite Forall_forall in Hok. apply pot_ok_single, Hok, Hp.
+Qed.
+
+Lemma cpot_am_facts : forall p, ecp_pot_ok p ->
+  exists s c, hik_of (p_am p) = String c "" /\ is_lower c = true /\ lower s = String c "" /\
+              amint_to_char (p_am p) false false = inr s /\ am_first p = inr (pot_l p) /\
+              amchar_to_int (String c "") false = inr (p_am p).
+Proof.
+  intros p [[l [E Hl]] _]. destruct (hik_facts l Hl) as [s [c [E1 [E2 [Hc E3]]]]]. exists s, c.
+  unfold hik_of, am_first, pot_l. rewrite E, E1, E2. repeat split; assumption.
+Qed.
+
+Lemma cmx_facts : forall mx, (0 <= mx < 25)%Z ->
+  exists s m, hik_of [mx] = String m "" /\ is_lower m = true /\ lower s = String m "" /\
+              amint_to_char [mx] false false = inr s /\ amchar_to_int (String m "") false = inr [mx].
+Proof.
+  intros mx H. destruct (hik_facts mx H) as [s [m [E1 [E2 [Hm E3]]]]]. exists s, m. unfold hik_of. rewrite E1, E2.
+  repeat split; assumption.
+Qed.
+
+Lemma cwrite_pot_lines : forall mx p, ecp_pot_ok p ->
+  c4ecp_write_pot mx (hik_of [mx]) p = inr (unlines (cpot_lines mx p)).
+Proof.
+  intros mx p Hp. destruct (pot_facts p Hp) as [_ [_ [Hg [Hc [Fg [Fc [Hts _]]]]]]].
+  destruct (cpot_am_facts p Hp) as [s [c [Eh [_ [Es [A1 [A2 _]]]]]]].
+  unfold c4ecp_write_pot. rewrite A1, A2. unfold bind. rewrite (tmecp_cols_eq p Hp).
+  assert (Hleft : leftpad_check [map CStr (pcoef p); map CInt (p_rexp p); map CStr (p_gexp p)] c4ecp_point_places = inr tt).
+  { unfold c4ecp_point_places. cbn [leftpad_check].
+    destruct (mapM_find_point (map CStr (pcoef p))) as [l1 ->]; [apply floats_cells, Fc|].
+    destruct (mapM_find_point (map CInt (p_rexp p))) as [l2 ->].
+    { rewrite Forall_forall. intros x Hx. apply in_map_iff in Hx. destruct Hx as [y [<- _]]. exact I. }
+    destruct (mapM_find_point (map CStr (p_gexp p))) as [l3 ->]; [apply floats_cells, Fg|]. reflexivity. }
+  rewrite Hleft.
+  assert (Hw : write_matrix [map CStr (pcoef p); map CInt (p_rexp p); map CStr (p_gexp p)] c4ecp_point_places false
+               = inr (unlines (cprows p))).
+  { unfold write_matrix, transpose_cells. rewrite transpose_ttrip. fold (ptrip p).
+    rewrite (mapM_map_ok _ _ _ crow (map tcellrow (ptrip p))).
+    - unfold bind, ok. fold (unlines (map crow (map tcellrow (ptrip p)))).
+      unfold cprows, cline. rewrite !map_map. reflexivity.
+    - intros row Hrow. apply in_map_iff in Hrow. destruct Hrow as [t [<- Ht]]. apply crow_facts, Hts, Ht. }
+  rewrite Hw. unfold ok, cpot_lines, chead. rewrite unlines_cons, Eh, Es.
+  destruct (Z.eqb (pot_l p) mx); rewrite ?sapp_assoc; reflexivity.
+Qed.
+
+Lemma cwrite_ecp_element_lines : forall name desc e, c4ecp_el_ok e ->
+  c4ecp_write_ecp_element name desc e = inr (unlines (cecp_el_lines name desc e)).
+Proof.
+  intros name desc [z [n pots]] He. destruct (c4ecp_el_facts z n pots He) as [Hz [Hn [Hne [Hok [Hnd [Hmx [Eo [Hoo _]]]]]]]].
+  destruct (symup_facts z Hz) as [Es _]. destruct (cmx_facts _ Hmx) as [s [m [Em [_ [Esm [Am _]]]]]].
+  unfold c4ecp_write_ecp_element. rewrite Es. unfold bind. rewrite (max_am_ok pots Hne Hok), Am, Eo.
+  rewrite Esm, <- Em.
+  rewrite (mapM_map_ok _ _ _ (fun p => unlines (cpot_lines (zmax (map pot_l pots)) p))).
+  - unfold ok, cecp_el_lines, el_mx, cinfo_line, cinfo_p, sym_line, symup. cbn [fst snd].
+    rewrite !unlines_cons, unlines_app, unlines_flat_map, !unlines_cons, !sapp_assoc. reflexivity.
+  - intros p Hp. apply cwrite_pot_lines. rewrite Forall_forall in Hoo. apply Hoo, Hp.
+Qed.
+
+Lemma cwrite_ecp_lines : forall name desc ecps, Forall c4ecp_el_ok ecps ->
+  c4ecp_write_ecp name desc ecps = inr (unlines (cecp_part name desc ecps)).
+Proof.
+  intros name desc ecps Hel. unfold c4ecp_write_ecp, cecp_part. destruct ecps as [|e0 ecps0]; [reflexivity|].
+  rewrite (mapM_map_ok _ _ _ (fun e => unlines (cecp_el_lines name desc e))).
+  - unfold bind, ok. rewrite !unlines_cons, unlines_flat_map. reflexivity.
+  - intros e Hin. apply cwrite_ecp_element_lines. rewrite Forall_forall in Hel. apply Hel, Hin.
+Qed.
+
+Lemma cwrite_lines : forall name desc els ecps, Forall cel_ok els -> Forall c4ecp_el_ok ecps ->
+  c4ecp_write name desc els ecps = inr (unlines (cfile_lines name desc els ecps)).
+Proof.
+  intros name desc els ecps Hel Hecp. unfold c4ecp_write.
+  rewrite (c4_write_electron_lines name desc els Hel). unfold bind. rewrite (cwrite_ecp_lines name desc ecps Hecp).
+  unfold ok, cfile_lines. rewrite unlines_app. reflexivity.
+Qed.
+
+(* ================================================================== *)
+
+(* ================================================================== *)
+(* 8. the lines of the ECP part after strip()                          *)
+(* ================================================================== *)
+(* ---- the letter line of a potential ---- *)
+Lemma chead_shape : forall mx p, ecp_pot_ok p -> (0 <= mx < 25)%Z ->
+  exists c m, is_lower c = true /\ is_lower m = true /\
+    chead mx p = (if Z.eqb (pot_l p) mx then String c "" else String c (String "-" (String m ""))) /\
+    amchar_to_int (String c "") false = inr (p_am p) /\ amchar_to_int (String m "") false = inr [mx].
+Proof.
+  intros mx p Hp Hmx. destruct (cpot_am_facts p Hp) as [s [c [Eh [Hc [_ [_ [_ Eb]]]]]]].
+  destruct (cmx_facts mx Hmx) as [s' [m [Em [Hm [_ [_ Ebm]]]]]].
+  exists c, m. unfold chead. rewrite Eh, Em. repeat split; assumption.
+Qed.
+
+Lemma lower_bang : forall c, is_lower c = true -> Ascii.eqb c "!" = false /\ Ascii.eqb c ":" = false.
+Proof. intros c H. all_chars c; try (split; reflexivity); discriminate H. Qed.
+
+Lemma short_not_ecp : forall c X, String.length X <= 2 -> is_ecp_block_line (String c X) = false.
+Proof.
+  intros c X H. unfold is_ecp_block_line, match_ecp_block.
+  destruct X as [|c2 [|c3 [|c4 X]]]; [| | |cbn [String.length] in H; lia]; cbn [strip_prefix_ci];
+    repeat match goal with
+           | |- context [Ascii.eqb (lower_char c) ?k] => destruct (Ascii.eqb (lower_char c) k)
+           | |- context [Ascii.eqb (lower_char c2) ?k] => destruct (Ascii.eqb (lower_char c2) k)
+           | |- context [Ascii.eqb (lower_char c3) ?k] => destruct (Ascii.eqb (lower_char c3) k)
+           end; reflexivity.
+Qed.
+
+Lemma chead_facts : forall mx p, ecp_pot_ok p -> (0 <= mx < 25)%Z ->
+  sline (chead mx p) /\ starts_alpha (chead mx p) = inr true /\ chead mx p <> "" /\ plain (chead mx p) /\
+  good_line (chead mx p).
+Proof.
+  intros mx p Hp Hmx. destruct (chead_shape mx p Hp Hmx) as [c [m [Hc [Hm [E _]]]]]. rewrite E.
+  destruct (lower_facts c Hc) as [Ac [Sc [Nc [Hh [_ [Hs _]]]]]]. destruct (lower_facts m Hm) as [Am [Sm [Nm _]]].
+  destruct (lower_bang c Hc) as [Hb Hcol].
+  assert (G : forall X, tok_ok (String c X) -> String.length X <= 2 -> el_cond (String c X) = inr false -> sall nobd X = true ->
+              sline (String c X) /\ starts_alpha (String c X) = inr true /\ String c X <> "" /\ plain (String c X) /\
+              good_line (String c X)).
+  { intros X Ht Hl He Hn. split; [|split; [|split; [|split]]].
+    - split; [apply strip_tok, Ht|]. exists c, X. split; [reflexivity|]. cbn [sany]. now rewrite Hs.
+    - cbn [starts_alpha]. now rewrite Ac.
+    - discriminate.
+    - split; [|split; [exact He | apply short_not_ecp, Hl]]. unfold keepf. cbn [is_empty first_in sany orb]. now rewrite Hb, Hh.
+    - unfold good_line. cbn [sall]. now rewrite Nc, Hn. }
+  destruct (Z.eqb (pot_l p) mx).
+  - apply G.
+    + split; [discriminate|]. cbn [sany]. now rewrite Sc.
+    + cbn; lia.
+    + unfold el_cond, is_c4_element_line, match_c4_element_line. cbn [span_alpha]. rewrite Ac. reflexivity.
+    + reflexivity.
+  - apply G.
+    + split; [discriminate|]. cbn [sany]. rewrite Sc, Sm. reflexivity.
+    + cbn; lia.
+    + unfold el_cond, is_c4_element_line, match_c4_element_line. cbn [span_alpha]. rewrite Ac.
+      change (is_alpha "-") with false. cbv iota. cbn [String.length Nat.leb andb]. change (Ascii.eqb "-" ":") with false. reflexivity.
+    + cbn [sall]. rewrite Nm. reflexivity.
+Qed.
+
+(* ---- the `NCORE = N    LMAX = L` line ---- *)
+Lemma cinfo_strip : forall n mx, strip_ws (cinfo_line n mx) = cinfo_p n mx /\ strip_ws (cinfo_p n mx) = cinfo_p n mx.
+Proof.
+  intros n mx.
+  assert (E : strip_ws (cinfo_p n mx) = cinfo_p n mx).
+  { unfold cinfo_p.
+    replace ("NCORE = " +++ Z_to_string n +++ "    LMAX = " +++ Z_to_string mx)
+      with ("NCORE" +++ (" = " +++ Z_to_string n +++ "    LMAX = ") +++ Z_to_string mx) by (rewrite !sapp_assoc; reflexivity).
+    apply strip_words; [split; [discriminate | reflexivity] | apply int_tok]. }
+  split; [|exact E]. unfold cinfo_line.
+  change ("    " +++ cinfo_p n mx) with (String " " (String " " (String " " (String " " (cinfo_p n mx))))).
+  now rewrite !strip_blank_head.
+Qed.
+
+Lemma c4_match_ecp_info_ok : forall N M, decimal N -> decimal M ->
+  match_ecp_info ("NCORE = " +++ N +++ "    LMAX = " +++ M) = Some (N, M) /\
+  match_ecp_block ("NCORE = " +++ N +++ "    LMAX = " +++ M) = Some (N, M).
+Proof.
+  intros N M HN HM. pose proof HN as [HNne HNd]. pose proof HM as [HMne HMd].
+  unfold match_ecp_info, match_ecp_block.
+  change (strip_prefix_ci "ncore" ("NCORE = " +++ N +++ "    LMAX = " +++ M)) with (Some (" = " +++ N +++ "    LMAX = " +++ M)).
+  cbv iota.
+  change (lstrip_ws (" = " +++ N +++ "    LMAX = " +++ M)) with (String "=" (" " +++ N +++ "    LMAX = " +++ M)). cbv iota.
+  change (lstrip_ws (" " +++ N +++ "    LMAX = " +++ M)) with (lstrip_ws (N +++ "    LMAX = " +++ M)).
+  rewrite (lstrip_word N _ (decimal_tok N HN)).
+  change (N +++ "    LMAX = " +++ M) with (N +++ String " " ("   LMAX = " +++ M)).
+  rewrite (span_digits_word_sp N _ HNd).
+  destruct N as [|n0 N']; [congruence|].
+  change (is_space " ") with true. cbv iota.
+  change (lstrip_ws (String " " ("   LMAX = " +++ M))) with ("LMAX = " +++ M).
+  change (strip_prefix_ci "lmax" ("LMAX = " +++ M)) with (Some (" = " +++ M)). cbv iota.
+  change (lstrip_ws (" = " +++ M)) with (String "=" (" " +++ M)). cbv iota.
+  change (lstrip_ws (" " +++ M)) with (lstrip_ws M).
+  rewrite <- (sapp_nil_r M) at 1 3. rewrite (lstrip_word M "" (decimal_tok M HM)), sapp_nil_r, (span_digits_all M HMd).
+  destruct M as [|m0 M']; [congruence|]. split; reflexivity.
+Qed.
+
+Lemma cinfo_p_facts : forall n mx, (0 <= n)%Z -> (0 <= mx)%Z ->
+  sline (cinfo_p n mx) /\ el_cond (cinfo_p n mx) = inr false /\ keepf (cinfo_p n mx) = true /\
+  match_ecp_info (cinfo_p n mx) = Some (Z_to_string n, Z_to_string mx) /\
+  is_ecp_block_line (cinfo_p n mx) = true.
+Proof.
+  intros n mx Hn Hmx. destruct (cinfo_strip n mx) as [_ E].
+  destruct (c4_match_ecp_info_ok _ _ (proj1 (nonneg_string n Hn)) (proj1 (nonneg_string mx Hmx))) as [M1 M2].
+  split; [|split; [|split; [reflexivity|split]]].
+  - split; [exact E|]. exists "N"%char. eexists. unfold cinfo_p. split; reflexivity.
+  - unfold el_cond, is_c4_element_line, match_c4_element_line, cinfo_p.
+    change ("NCORE = " +++ Z_to_string n +++ "    LMAX = " +++ Z_to_string mx)
+      with ("NCORE" +++ String " " ("= " +++ Z_to_string n +++ "    LMAX = " +++ Z_to_string mx)).
+    rewrite (span_alpha_stop "NCORE" " " _ eq_refl eq_refl). reflexivity.
+  - exact M1.
+  - unfold is_ecp_block_line, cinfo_p. now rewrite M2.
+Qed.
+
+(* ---- the element line: `SYM:name` becomes `SYM name` ---- *)
+Lemma replace_colon_alpha : forall a r, sall is_alpha a = true -> replace_colon (a +++ String ":" r) = a +++ String " " r.
+Proof.
+  induction a as [|c a IH]; intros r H; [reflexivity|]. cbn [sall] in H. apply andb_true_iff in H. destruct H as [Hc Ha].
+  cbn [String.append replace_colon].
+  assert (Ec : Ascii.eqb c ":" = false) by (clear -Hc; all_chars c; try reflexivity; discriminate Hc).
+  rewrite Ec, (IH r Ha). reflexivity.
+Qed.
+
+Lemma sym_p_colon : forall name z, (1 <= z <= 120)%Z ->
+  parse_element_line (replace_colon (sym_p name z)) = inr (symup z) /\ sline (sym_p name z).
+Proof.
+  intros name z Hz. destruct (symup_facts z Hz) as [_ [Hne [Ha [Hl _]]]]. split.
+  - rewrite (sym_p_form name z Hz), (replace_colon_alpha _ _ Ha).
+    unfold parse_element_line, match_element_line. rewrite (span_alpha_stop _ " " _ Ha eq_refl).
+    destruct (symup z) as [|c0 a']; [congruence|]. apply Nat.leb_le in Hl. rewrite Hl. reflexivity.
+  - split; [apply strip_idem|]. rewrite (sym_p_form name z Hz). destruct (symup z) as [|c0 a']; [congruence|].
+    cbn [sall] in Ha. apply andb_true_iff in Ha. destruct Ha as [Hc _]. eexists c0, _. split; [reflexivity|]. cbn [sany].
+    assert (Ec : Ascii.eqb c0 "*" = false) by (clear -Hc; all_chars c0; try reflexivity; discriminate Hc). now rewrite Ec.
+Qed.
+
+(* ---- one potential block ---- *)
+Definition cpot_blk (mx : Z) (p : epot) : list string := chead mx p :: map cp (ptrip p).
+
+Lemma cptrip_ok : forall p, ecp_pot_ok p -> (forall t, In t (ptrip p) -> trip_ok t) /\ ptrip p <> [].
+Proof. intros p Hp. destruct (pot_facts p Hp) as [_ [_ [_ [_ [_ [_ H]]]]]]. exact H. Qed.
+
+Lemma cpot_blk_facts : forall mx p, ecp_pot_ok p -> (0 <= mx < 25)%Z ->
+  block_shape starts_alpha (cpot_blk mx p) /\ 2 <= List.length (cpot_blk mx p) /\
+  Forall (fun l => sline l /\ plain l) (cpot_blk mx p).
+Proof.
+  intros mx p Hp Hmx. destruct (chead_facts mx p Hp Hmx) as [Hs [Ha [_ [Hpl _]]]]. destruct (cptrip_ok p Hp) as [Hts Hne].
+  unfold cpot_blk. split; [|split].
+  - exists (chead mx p), (map cp (ptrip p)). split; [reflexivity|]. split; [exact Ha|].
+    rewrite Forall_forall. intros l Hl. apply in_map_iff in Hl. destruct Hl as [t [<- Ht]]. apply cp_facts, Hts, Ht.
+  - cbn [List.length]. rewrite map_length. destruct (ptrip p); [congruence | cbn; lia].
+  - constructor; [split; assumption|]. rewrite Forall_forall. intros l Hl. apply in_map_iff in Hl.
+    destruct Hl as [t [<- Ht]]. destruct (cp_facts t (Hts t Ht)) as [H1 [_ [_ H4]]]. split; assumption.
+Qed.
+
+Lemma strip_cpot_lines : forall mx p, ecp_pot_ok p -> (0 <= mx < 25)%Z -> map strip_ws (cpot_lines mx p) = cpot_blk mx p.
+Proof.
+  intros mx p Hp Hmx. destruct (chead_facts mx p Hp Hmx) as [[E _] _]. unfold cpot_lines, cpot_blk, cprows. cbn [map].
+  rewrite E, map_map. reflexivity.
+Qed.
+
+Lemma c4_expected_pot_eq : forall p, ecp_pot_ok p ->
+  mkEpot "scalar_ecp" (p_am p) (p_rexp p) (map (norm false) (p_gexp p)) [map (norm false) (pcoef p)] = ecp_expected_pot p.
+Proof. intros p Hp. destruct (pot_facts p Hp) as [_ [Ec _]]. unfold ecp_expected_pot. rewrite Ec. reflexivity. Qed.
+
+Lemma cpot_table : forall p, ecp_pot_ok p ->
+  parse_ecp_table_crg (map cp (ptrip p)) = inr (p_rexp p, map (norm false) (p_gexp p), [map (norm false) (pcoef p)]).
+Proof. intros p Hp. destruct (pot_facts p Hp) as [_ [_ [Hg [Hc [Fg [Fc _]]]]]]. apply ctable_read; assumption. Qed.
+
+Lemma cparse_pots_ok : forall mx pots found acc, (0 <= mx < 25)%Z -> Forall ecp_pot_ok pots -> NoDup (map pot_l pots) ->
+  (found = true -> Forall (fun p => pot_l p <> mx) pots) ->
+  tmecp_parse_pots mx (map (cpot_blk mx) pots) found acc = inr (acc ++ map ecp_expected_pot pots).
+Proof.
+  intros mx; induction pots as [|p pots IH]; intros found acc Hmx Hok Hnd Hf.
+  - cbn [map tmecp_parse_pots]. now rewrite app_nil_r.
+  - inversion Hok as [|? ? Hp Hok']; subst. cbn [map] in Hnd. inversion Hnd as [|? ? Hnotin Hnd']; subst.
+    destruct (chead_shape mx p Hp Hmx) as [c [m [Hc [Hm [E [Ec Em]]]]]].
+    destruct (pot_ok_single p Hp) as [Hsing _]. unfold single_am in Hsing.
+    cbn [map tmecp_parse_pots]. unfold cpot_blk at 1. rewrite E.
+    destruct (Z.eqb (pot_l p) mx) eqn:Eq.
+    + cbn [match_pot_am]. rewrite Hc, Ec. unfold bind at 1.
+      destruct found.
+      { exfalso. apply Z.eqb_eq in Eq. specialize (Hf eq_refl). inversion Hf as [|? ? H1 _]; subst. apply H1; reflexivity. }
+      pose proof Hsing as Hs2. destruct (p_am p) as [|a0 arest] eqn:Eam; [discriminate Hs2|]. injection Hs2 as -> ->.
+      rewrite Eq. cbn [negb]. unfold bind at 1, ok at 1. rewrite <- Eam.
+      rewrite (cpot_table p Hp). unfold bind at 1. rewrite (c4_expected_pot_eq p Hp).
+      rewrite (IH true _ Hmx Hok' Hnd').
+      * rewrite <- app_assoc. reflexivity.
+      * intros _. apply Z.eqb_eq in Eq. rewrite Forall_forall. intros q Hq Eqq. apply Hnotin. rewrite Eq, <- Eqq. apply in_map, Hq.
+    + cbn [match_pot_am]. rewrite Hc, Hm. cbn [andb]. rewrite Ec. unfold bind at 1. rewrite Em. unfold bind at 1. unfold bind at 1.
+      rewrite Z.eqb_refl. cbn [negb]. unfold ok at 1.
+      rewrite (cpot_table p Hp). unfold bind at 1. rewrite (c4_expected_pot_eq p Hp).
+      rewrite (IH found _ Hmx Hok' Hnd').
+      * rewrite <- app_assoc. reflexivity.
+      * intros Hfound. specialize (Hf Hfound). inversion Hf; assumption.
+Qed.
+
+(* ---- one element ---- *)
+Definition cexp_el (e : Z * (Z * list epot)) : Z * (Z * list epot) :=
+  (fst e, (fst (snd e), map ecp_expected_pot (ecp_written_order (snd (snd e))))).
+(* the lines of an element that reach the Turbomole parser (before the colon is replaced) *)
+Definition cinner (e : Z * (Z * list epot)) : list string :=
+  cinfo_p (fst (snd e)) (el_mx e) :: flat_map (cpot_blk (el_mx e)) (ecp_written_order (snd (snd e))).
+
+Lemma cinner_facts : forall e, c4ecp_el_ok e ->
+  Forall (fun l => sline l /\ el_cond l = inr false /\ keepf l = true) (cinner e).
+Proof.
+  intros [z [n pots]] He. destruct (c4ecp_el_facts z n pots He) as [_ [Hn [_ [_ [_ [Hmx [_ [Hoo _]]]]]]]].
+  unfold cinner, el_mx. cbn [fst snd]. constructor.
+  - destruct (cinfo_p_facts n (zmax (map pot_l pots)) Hn ltac:(lia)) as [H1 [H2 [H3 _]]]. repeat split; assumption || apply H1.
+  - rewrite Forall_forall in *. intros l Hl. apply in_flat_map in Hl. destruct Hl as [p [Hp Hl]].
+    destruct (cpot_blk_facts _ p (Hoo p Hp) Hmx) as [_ [_ F]]. rewrite Forall_forall in F. destruct (F l Hl) as [A [B [C D]]].
+    split; [exact A|]. split; assumption.
+Qed.
+
+Lemma cparse_ecp_element : forall name e pm, c4ecp_el_ok e -> ~ In (fst e) (map fst pm) ->
+  tmecp_parse_ecp_potential_lines (replace_colon (sym_p name (fst e)) :: cinner e) pm = inr (pm ++ [cexp_el e]).
+Proof.
+  intros name [z [n pots]] pm He Hd. cbn [fst] in Hd.
+  destruct (c4ecp_el_facts z n pots He) as [Hz [Hn [Hne [Hok [Hnd [Hmx [_ [Hoo Hperm]]]]]]]].
+  destruct (sym_p_colon name z Hz) as [Hp _].
+  destruct (symup_facts z Hz) as [_ [_ [_ [_ Hback]]]].
+  destruct (cinfo_p_facts n (zmax (map pot_l pots)) Hn ltac:(lia)) as [_ [_ [_ [Hinfo _]]]].
+  destruct (nonneg_string n Hn) as [_ Vn]. destruct (nonneg_string (zmax (map pot_l pots)) ltac:(lia)) as [_ Vm].
+  unfold cinner, cexp_el, el_mx. cbn [fst snd].
+  unfold tmecp_parse_ecp_potential_lines. rewrite Hp. unfold bind at 1. rewrite Hback. unfold bind at 1.
+  rewrite (not_in_existsb z _ Hd), Hinfo, Vn, Vm. cbv zeta.
+  rewrite flat_map_concat_map, partition_blocks2.
+  - unfold bind at 1. rewrite (cparse_pots_ok _ _ false [] Hmx Hoo); [reflexivity | | discriminate].
+    apply (Permutation_NoDup (Permutation_map pot_l Hperm)), Hnd.
+  - rewrite Forall_forall in *. intros b Hb. apply in_map_iff in Hb. destruct Hb as [p [<- Hpin]].
+    destruct (cpot_blk_facts _ p (Hoo p Hpin) Hmx) as [H1 [H2 _]]. split; assumption.
+Qed.
+
+(* ================================================================== *)
+
+(* ================================================================== *)
+(* 9. an electron block followed by any lines that the `*` pruning removes *)
+(* ================================================================== *)
+Definition tail_ok (T : list string) : Prop := Forall plain T /\ prune_lines T "*" true true = [].
+
+Lemma parse_block_okT : forall name desc zs T d, cel_ok zs -> prune_lines T "*" true true = [] -> ~ In (fst zs) (map fst d) ->
+  c4_parse_electron_lines (core name desc zs ++ T) d =
+    inr (d ++ [(fst zs, map c4_expected_shell (snd zs))]).
+Proof.
+  intros name desc [z shs] T d [Hz Hs] HT Hd. unfold core. cbn [fst snd] in *.
+  replace (match shs with [] => [sym_p name z; strip_ws desc; ""; nat_str 0] | _ :: _ => hdr_p name desc (z, shs) ++ body_p shs end ++ T)
+    with (sym_p name z :: strip_ws desc :: "" :: nat_str (List.length shs) ::
+          match shs with [] => T | _ => fl_p (am_ws shs) :: fl_p (ngen_ws shs) :: fl_p (nprim_ws shs) :: body_p shs ++ T end)
+    by (destruct shs; reflexivity).
+  destruct (sym_p_facts name z Hz) as [_ [_ [_ [Hp _]]]]. destruct (symup_facts z Hz) as [_ [_ [_ [_ Hback]]]].
+  destruct (ws_ok_all shs Hs) as [W1 [W2 W3]]. destruct (ints_back shs Hs) as [I1 [I2 I3]].
+  unfold c4_parse_electron_lines. rewrite Hp. unfold bind at 1. rewrite Hback. unfold bind at 1.
+  unfold tm_create_electron_shells. rewrite (not_in_existsb z _ Hd). unfold bind at 1, ok at 1.
+  cbn [skipn]. rewrite remove_blank. unfold bind at 1. rewrite parse_nshell_ok. unfold bind at 1.
+  destruct shs as [|s0 shs0] eqn:Eshs.
+  - cbn [List.length Z.of_nat].
+    rewrite read_ints_none. unfold bind at 1. rewrite read_ints_none. unfold bind at 1. rewrite read_ints_none. unfold bind at 1.
+    cbn [combine c4_parse_shells]. unfold bind, ok. rewrite HT. reflexivity.
+  - rewrite <- Eshs in *. assert (Hne : shs <> []) by (rewrite Eshs; discriminate).
+    assert (L1 : List.length (am_ws shs) = List.length shs) by apply map_length.
+    assert (L2 : List.length (ngen_ws shs) = List.length shs) by apply map_length.
+    assert (L3 : List.length (nprim_ws shs) = List.length shs) by apply map_length.
+    assert (N1 : am_ws shs <> []) by (rewrite Eshs; discriminate).
+    assert (N2 : ngen_ws shs <> []) by (rewrite Eshs; discriminate).
+    assert (N3 : nprim_ws shs <> []) by (rewrite Eshs; discriminate).
+    rewrite <- L1 at 1. rewrite (read_ints_line _ _ N1 W1). unfold bind at 1.
+    rewrite <- L2 at 1. rewrite (read_ints_line _ _ N2 W2). unfold bind at 1.
+    rewrite <- L3 at 1. rewrite (read_ints_line _ _ N3 W3). unfold bind at 1.
+    rewrite I1, I2, I3, combine3.
+    change (map (fun s => (am0 s, Z.of_nat (List.length (coefs s)), Z.of_nat (List.length (exps s)))) shs) with (map idx_of shs).
+    rewrite (parse_shells_ok z shs T d [] Hs Hd). unfold bind. rewrite HT. reflexivity.
+Qed.
+
+Lemma core_blockT : forall name desc zs T, cel_ok zs -> Forall plain T ->
+  exists r, core name desc zs ++ T = sym_p name (fst zs) :: strip_ws desc :: r /\ Forall plain r /\ 2 <= List.length r.
+Proof.
+  intros name desc [z shs] T [Hz Hs] HT. cbn [fst snd] in *. unfold core. cbn [fst snd].
+  assert (Hnat : forall n, plain (nat_str n)) by (intros n; apply nline_plain, nat_str_nline).
+  destruct shs as [|s0 shs0] eqn:E.
+  - eexists. split; [reflexivity|]. split; [|cbn [List.length]; lia].
+    constructor; [exact plain_blank|]. constructor; [apply Hnat | exact HT].
+  - rewrite <- E in *. destruct (ws_ok_all shs Hs) as [W1 [W2 W3]].
+    unfold hdr_p. cbn [fst snd app]. eexists. split; [reflexivity|]. split; [|cbn [List.length]; lia].
+    constructor; [exact plain_blank|]. constructor; [apply Hnat|].
+    constructor; [apply (fl_p_facts _ W1)|]. constructor; [apply (fl_p_facts _ W2)|]. constructor; [apply (fl_p_facts _ W3)|].
+    apply Forall_app. split; [apply body_plain, Hs | exact HT].
+Qed.
+
+Lemma core_factsT : forall name desc zs T, c4_desc_ok desc -> cel_ok zs -> Forall plain T ->
+  let b := core name desc zs ++ T in
+  ablock el_cond b /\ 4 <= List.length b /\ existsb is_ecp_block_line b = false /\ Forall (fun l => keepf l = true) b.
+Proof.
+  intros name desc zs T Hd Hz HT b. destruct (core_blockT name desc zs T Hz HT) as [r [Er [Hr Hl]]]. subst b. rewrite Er.
+  destruct Hz as [Hz _]. destruct (sym_p_facts name (fst zs) Hz) as [K1 [K2 [K3 _]]]. destruct (desc_p_facts desc Hd) as [D1 D2].
+  split; [|split; [|split]].
+  - exists (sym_p name (fst zs)), (strip_ws desc), r. split; [reflexivity|]. split; [exact K2|].
+    eapply Forall_weaken; [|exact Hr]. intros l Hp. apply Hp.
+  - cbn [List.length]. lia.
+  - cbn [existsb]. rewrite K3, D2. cbn [orb]. apply existsb_false. intros l Hin. rewrite Forall_forall in Hr. apply (Hr l Hin).
+  - constructor; [exact K1|]. constructor; [exact D1|]. eapply Forall_weaken; [|exact Hr]. intros l Hp. apply Hp.
+Qed.
+
+(* ================================================================== *)
+(* 10. the loop over the blocks                                        *)
+(* ================================================================== *)
+Definition blkT (name desc : string) (p : (Z * list sshell) * list string) : list string := core name desc (fst p) ++ snd p.
+Definition nin (E : list Z) (z : Z) : bool := negb (existsb (Z.eqb z) E).
+
+Lemma c4ecp_blocks_electron : forall name desc zts rest d, c4_desc_ok desc -> Forall cel_ok (map fst zts) ->
+  Forall tail_ok (map snd zts) -> NoDup (map fst (map fst zts)) ->
+  (forall z, In z (map fst (map fst zts)) -> ~ In z (map fst d)) ->
+  c4ecp_blocks (map (blkT name desc) zts ++ rest) (map fst d, d, []) =
+  c4ecp_blocks rest (map fst (d ++ c4_expected (map fst zts)), d ++ c4_expected (map fst zts), []).
+Proof.
+  intros name desc; induction zts as [|[zs T] zts IH]; intros rest d Hd Hel HT Hnd Hdis.
+  - cbn [map app c4_expected]. now rewrite app_nil_r.
+  - cbn [map fst snd] in *. inversion Hel as [|? ? H1 H2]; subst. inversion HT as [|? ? [T1 T2] T3]; subst.
+    inversion Hnd as [|? ? Hnotin Hnd']; subst.
+    cbn [app c4ecp_blocks]. change (blkT name desc (zs, T)) with (core name desc zs ++ T).
+    destruct (core_factsT name desc zs T Hd H1 T1) as [_ [_ [He _]]]. cbv zeta in He. rewrite He.
+    rewrite (parse_block_okT name desc zs T d H1 T2); [|apply Hdis; now left]. unfold bind.
+    assert (Ek : add_keys (map fst d) (map fst (d ++ [(fst zs, map c4_expected_shell (snd zs))])) =
+                 map fst (d ++ [(fst zs, map c4_expected_shell (snd zs))])).
+    { rewrite map_app. cbn [map fst]. apply add_keys_new. apply Hdis. now left. }
+    rewrite Ek. rewrite (IH rest _ Hd H2 T3 Hnd').
+    + unfold c4_expected. cbn [map]. rewrite <- !app_assoc. reflexivity.
+    + intros z Hz. rewrite map_app, in_app_iff. cbn [map fst In]. intros [Hin|[Heq|[]]].
+      * apply (Hdis z); [now right | exact Hin].
+      * subst z. apply Hnotin, Hz.
+Qed.
+
+(* an ECP block: the element line, `*`, the lines for the Turbomole parser and k lines `*` *)
+Definition eblk (name : string) (p : (Z * (Z * list epot)) * nat) : list string :=
+  sym_p name (fst (fst p)) :: "*" :: cinner (fst p) ++ repeat "*" (snd p).
+
+Lemma prune_stars : forall k, prune_lines (repeat "*" k) "*" true true = [].
+Proof.
+  intros k. rewrite pr_unfold by reflexivity. induction k as [|k IH]; [reflexivity|]. cbn [repeat map filter]. exact IH.
+Qed.
+
+Lemma stars_plain : forall k, Forall plain (repeat "*" k).
+Proof. induction k as [|k IH]; [constructor|]. cbn [repeat]. constructor; [repeat split | exact IH]. Qed.
+
+Lemma c4ecp_parse_eblk : forall name e k pm, c4ecp_el_ok e -> ~ In (fst e) (map fst pm) ->
+  c4ecp_parse_ecp_lines (eblk name (e, k)) pm = inr (pm ++ [cexp_el e]).
+Proof.
+  intros name e k pm He Hd. pose proof (cinner_facts e He) as Hin.
+  assert (Hz : (1 <= fst e <= 120)%Z) by (destruct e as [z [n pots]]; apply He).
+  destruct (sym_p_colon name (fst e) Hz) as [_ Hsym].
+  assert (HA : Forall sline (sym_p name (fst e) :: cinner e)).
+  { constructor; [exact Hsym|]. eapply Forall_weaken; [|exact Hin]. intros l Hl. apply Hl. }
+  unfold c4ecp_parse_ecp_lines, eblk, remove_expected_line. cbn [fst snd nth_error].
+  change (String.eqb "*" "*") with true. cbv iota. cbn [firstn skipn app]. unfold bind.
+  change (sym_p name (fst e) :: cinner e ++ repeat "*" k) with ((sym_p name (fst e) :: cinner e) ++ repeat "*" k).
+  unfold ok. rewrite pr_app by reflexivity. rewrite prune_stars, app_nil_r.
+  assert (Eid : map strip_ws (sym_p name (fst e) :: cinner e) = sym_p name (fst e) :: cinner e).
+  { apply map_id_in. eapply Forall_weaken; [|exact HA]. intros l Hl. apply Hl. }
+  rewrite pr_keep; [| reflexivity | rewrite Eid; eapply Forall_weaken; [|exact HA]; intros l Hl; apply Hl].
+  rewrite Eid. apply cparse_ecp_element; assumption.
+Qed.
+
+Lemma eblk_facts : forall name e k, c4ecp_el_ok e -> 1 <= k ->
+  ablock el_cond (eblk name (e, k)) /\ 4 <= List.length (eblk name (e, k)) /\
+  existsb is_ecp_block_line (eblk name (e, k)) = true.
+Proof.
+  intros name e k He Hk. pose proof (cinner_facts e He) as Hin.
+  assert (Hz : (1 <= fst e <= 120)%Z) by (destruct e as [z [n pots]]; apply He).
+  destruct (sym_p_facts name (fst e) Hz) as [_ [K2 _]].
+  unfold eblk. cbn [fst snd]. split; [|split].
+  - exists (sym_p name (fst e)), "*", (cinner e ++ repeat "*" k). split; [reflexivity|]. split; [exact K2|].
+    apply Forall_app. split.
+    + eapply Forall_weaken; [|exact Hin]. intros l Hl. apply Hl.
+    + eapply Forall_weaken; [|exact (stars_plain k)]. intros l Hl. apply Hl.
+  - cbn [List.length]. rewrite app_length, repeat_length. unfold cinner. cbn [List.length]. lia.
+  - destruct e as [z [n pots]]. destruct (c4ecp_el_facts z n pots He) as [_ [Hn [_ [_ [_ [Hmx _]]]]]].
+    destruct (cinfo_p_facts n (zmax (map pot_l pots)) Hn ltac:(lia)) as [_ [_ [_ [_ Hi]]]].
+    unfold cinner, el_mx. cbn [fst snd app existsb]. rewrite Hi. rewrite !orb_true_r. reflexivity.
+Qed.
+
+Lemma existsb_app_Z : forall z (a b : list Z), existsb (Z.eqb z) (a ++ b) = orb (existsb (Z.eqb z) a) (existsb (Z.eqb z) b).
+Proof. intros z a b. apply existsb_app. Qed.
+
+Lemma in_existsb : forall z l, In z l -> existsb (Z.eqb z) l = true.
+Proof. intros z l H. apply existsb_exists. exists z. split; [exact H | apply Z.eqb_refl]. Qed.
+
+Lemma add_keys_inv : forall E P k, ~ In k P ->
+  add_keys (E ++ filter (nin E) P) (P ++ [k]) = E ++ filter (nin E) (P ++ [k]).
+Proof.
+  intros E P k Hk. unfold add_keys. rewrite <- app_assoc. f_equal. rewrite !filter_app. f_equal.
+  assert (E1 : filter (fun z => negb (existsb (Z.eqb z) (E ++ filter (nin E) P))) P = []).
+  { assert (G : forall L, incl L P -> filter (fun z => negb (existsb (Z.eqb z) (E ++ filter (nin E) P))) L = []).
+    { induction L as [|x L IH]; intros Hi; [reflexivity|]. cbn [filter].
+      assert (Ex : existsb (Z.eqb x) (E ++ filter (nin E) P) = true).
+      { rewrite existsb_app_Z. destruct (existsb (Z.eqb x) E) eqn:Ee; [reflexivity|]. cbn [orb].
+        apply in_existsb. apply filter_In. split; [apply Hi; now left|]. unfold nin. now rewrite Ee. }
+      rewrite Ex. cbn [negb]. apply IH. intros y Hy. apply Hi. now right. }
+    apply G, incl_refl. }
+  rewrite E1. cbn [app filter]. unfold nin at 2. rewrite existsb_app_Z.
+  destruct (existsb (Z.eqb k) E) eqn:Ee; [reflexivity|]. cbn [orb negb].
+  rewrite (not_in_existsb k (filter (nin E) P)); [reflexivity|]. intros Hin. apply filter_In in Hin. apply Hk, Hin.
+Qed.
+
+Lemma c4ecp_blocks_ecp : forall name eks E em pm, Forall c4ecp_el_ok (map fst eks) ->
+  NoDup (map fst pm ++ map fst (map fst eks)) ->
+  c4ecp_blocks (map (eblk name) eks) (E ++ filter (nin E) (map fst pm), em, pm) =
+  inr (E ++ filter (nin E) (map fst (pm ++ map cexp_el (map fst eks))), em, pm ++ map cexp_el (map fst eks)).
+Proof.
+  intros name; induction eks as [|[e k] eks IH]; intros E em pm Hel Hnd.
+  - cbn [map c4ecp_blocks]. now rewrite app_nil_r.
+  - cbn [map fst snd] in *. inversion Hel as [|? ? H1 H2]; subst.
+    assert (Hk : ~ In (fst e) (map fst pm)).
+    { intros Hin. apply NoDup_remove_2 in Hnd. apply Hnd. apply in_or_app. now left. }
+    cbn [c4ecp_blocks].
+    assert (Hex : existsb is_ecp_block_line (eblk name (e, k)) = true).
+    { pose proof (cinner_facts e H1) as _. destruct e as [z [n pots]]. destruct (c4ecp_el_facts z n pots H1) as [_ [Hn [_ [_ [_ [Hmx _]]]]]].
+      destruct (cinfo_p_facts n (zmax (map pot_l pots)) Hn ltac:(lia)) as [_ [_ [_ [_ Hi]]]].
+      unfold eblk, cinner, el_mx. cbn [fst snd app existsb]. rewrite Hi. rewrite !orb_true_r. reflexivity. }
+    rewrite Hex. rewrite (c4ecp_parse_eblk name e k pm H1 Hk). unfold bind.
+    rewrite map_app. cbn [map fst]. change (fst (cexp_el e)) with (fst e).
+    rewrite (add_keys_inv E (map fst pm) (fst e) Hk).
+    replace (map fst pm ++ [fst e]) with (map fst (pm ++ [cexp_el e])) by (rewrite map_app; reflexivity).
+    etransitivity; [apply (IH E em (pm ++ [cexp_el e]) H2)|].
+    + rewrite map_app. cbn [map fst]. change (fst (cexp_el e)) with (fst e). rewrite <- app_assoc. exact Hnd.
+    + rewrite <- !app_assoc. reflexivity.
+Qed.
+
+(* ================================================================== *)
+
+(* ================================================================== *)
+(* 11. the written text: complete lines, and what prune_lines(lines, '!#', prune_blank=False) leaves *)
+(* ================================================================== *)
+Lemma sym_line_good : forall name z, c4_name_ok name -> (1 <= z <= 120)%Z -> good_line (sym_line name z).
+Proof.
+  intros name z Hn Hz. destruct (symup_facts z Hz) as [_ [_ [Ha _]]]. unfold sym_line, good_line.
+  rewrite !sall_app, (sall_impl is_alpha nobd _ alpha_nobd Ha), (name_good name Hn). reflexivity.
+Qed.
+
+Lemma cecp_el_lines_good : forall name desc e, c4_name_ok name -> c4_desc_ok desc -> c4ecp_el_ok e ->
+  Forall good_line (cecp_el_lines name desc e).
+Proof.
+  intros name desc [z [n pots]] Hn [Hd _] He. destruct (c4ecp_el_facts z n pots He) as [Hz [_ [_ [_ [_ [Hmx [_ [Hoo _]]]]]]]].
+  unfold cecp_el_lines, el_mx. cbn [fst snd].
+  constructor; [reflexivity|]. constructor; [apply sym_line_good; assumption|].
+  constructor; [unfold good_line; rewrite sall_app, (name_good desc Hd); reflexivity|]. constructor; [reflexivity|].
+  constructor.
+  - unfold cinfo_line, cinfo_p, good_line.
+    rewrite !sall_app, (TurbomoleEcpSpec.int_good n), (TurbomoleEcpSpec.int_good (zmax (map pot_l pots))). reflexivity.
+  - apply Forall_app. split; [|repeat constructor]. rewrite Forall_forall in *. intros l Hl. apply in_flat_map in Hl.
+    destruct Hl as [p [Hp Hl]]. destruct Hl as [<-|Hl]; [apply chead_facts; [apply Hoo, Hp | exact Hmx]|].
+    unfold cprows in Hl. apply in_map_iff in Hl. destruct Hl as [t [<- Ht]].
+    apply crow_facts, (cptrip_ok p (Hoo p Hp)), Ht.
+Qed.
+
+Lemma c4ecp_ok_parts : forall name desc els ecps, c4ecp_ok name desc els ecps ->
+  c4_ok name desc els /\ c4_name_ok name /\ c4_desc_ok desc /\ Forall cel_ok els /\ NoDup (map fst els) /\
+  (ecps <> [] -> els <> []) /\ NoDup (map fst ecps) /\ Forall c4ecp_el_ok ecps.
+Proof.
+  intros name desc els ecps [H [Hne [Hnd Hecp]]]. pose proof (c4_ok_els _ _ _ H) as Hel. pose proof H as [Hn [Hd [Hnd' _]]].
+  repeat (split; [assumption|]). assumption.
+Qed.
+
+Lemma cfile_lines_good : forall name desc els ecps, c4ecp_ok name desc els ecps ->
+  Forall good_line (cfile_lines name desc els ecps).
+Proof.
+  intros name desc els ecps H. destruct (c4ecp_ok_parts _ _ _ _ H) as [Hc [Hn [Hd [_ [_ [_ [_ Hecp]]]]]]].
+  unfold cfile_lines. apply Forall_app. split; [apply all_lines_good, Hc|].
+  unfold cecp_part. destruct ecps as [|e0 ecps0]; [constructor|]. remember (e0 :: ecps0) as ecps.
+  constructor; [reflexivity|]. constructor; [reflexivity|]. constructor; [reflexivity|].
+  rewrite Forall_forall in *. intros l Hl. apply in_flat_map in Hl. destruct Hl as [e [He Hl]].
+  pose proof (cecp_el_lines_good name desc e Hn Hd (Hecp e He)) as G. rewrite Forall_forall in G. apply G, Hl.
+Qed.
+
+Lemma c4ecp_write_lines_ok : forall name desc els ecps, c4ecp_ok name desc els ecps ->
+  c4ecp_write name desc els ecps = inr (unlines (cfile_lines name desc els ecps)).
+Proof.
+  intros name desc els ecps H. destruct (c4ecp_ok_parts _ _ _ _ H) as [_ [_ [_ [Hel [_ [_ [_ Hecp]]]]]]].
+  apply cwrite_lines; assumption.
+Qed.
+
+Lemma c4ecp_written_lines : forall name desc els ecps t, c4ecp_ok name desc els ecps ->
+  c4ecp_write name desc els ecps = inr t -> splitlines t = cfile_lines name desc els ecps.
+Proof.
+  intros name desc els ecps t H E. rewrite (c4ecp_write_lines_ok name desc els ecps H) in E. inversion E; subst.
+  apply splitlines_unlines, cfile_lines_good, H.
+Qed.
+
+(* ---- what is kept of the lines of an ECP element ---- *)
+Definition ckept (name : string) (e : Z * (Z * list epot)) : list string :=
+  "*" :: sym_p name (fst e) :: "*" :: cinner e ++ ["*"].
+
+Lemma filter_cons_true : forall (A : Type) (p : A -> bool) x l, p x = true -> filter p (x :: l) = x :: filter p l.
+Proof. intros A p x l H. cbn [filter]. now rewrite H. Qed.
+Lemma filter_cons_false : forall (A : Type) (p : A -> bool) x l, p x = false -> filter p (x :: l) = filter p l.
+Proof. intros A p x l H. cbn [filter]. now rewrite H. Qed.
+
+Lemma filter_flat_map : forall (A B : Type) (p : B -> bool) (f : A -> list B) l,
+  filter p (flat_map f l) = flat_map (fun x => filter p (f x)) l.
+Proof. intros A B p f; induction l as [|a l IH]; [reflexivity|]. cbn [flat_map]. now rewrite filter_app, IH. Qed.
+
+Lemma strip_cecp_el_lines : forall name desc e, c4ecp_el_ok e ->
+  exists Z, map strip_ws (cecp_el_lines name desc e) =
+            "*" :: sym_p name (fst e) :: String "#" Z :: "*" :: cinner e ++ ["*"].
+Proof.
+  intros name desc [z [n pots]] He. destruct (c4ecp_el_facts z n pots He) as [_ [_ [_ [_ [_ [Hmx [_ [Hoo _]]]]]]]].
+  destruct (strip_ws_head "#" (String " " desc) eq_refl) as [Z EZ]. exists Z.
+  unfold cecp_el_lines, cinner, el_mx, sym_p. cbn [fst snd map].
+  change ("# " +++ desc) with (String "#" (String " " desc)). rewrite EZ.
+  destruct (cinfo_strip n (zmax (map pot_l pots))) as [-> _].
+  rewrite map_app, map_flat_map. cbn [map app]. do 5 f_equal. f_equal.
+  apply flat_map_ext_in. intros p Hp. apply strip_cpot_lines; [|exact Hmx]. rewrite Forall_forall in Hoo. apply Hoo, Hp.
+Qed.
+
+Lemma kept_cecp_el_lines : forall name desc e, c4ecp_el_ok e ->
+  filter keepf (map strip_ws (cecp_el_lines name desc e)) = ckept name e.
+Proof.
+  intros name desc e He. destruct (strip_cecp_el_lines name desc e He) as [Z ->].
+  assert (Hz : (1 <= fst e <= 120)%Z) by (destruct e as [z [n pots]]; apply He).
+  destruct (sym_p_facts name (fst e) Hz) as [K1 _]. pose proof (cinner_facts e He) as Hin.
+  rewrite (filter_cons_true _ keepf "*") by reflexivity. rewrite (filter_cons_true _ keepf _ _ K1).
+  rewrite (filter_cons_false _ keepf (String "#" Z)) by reflexivity. rewrite (filter_cons_true _ keepf "*") by reflexivity.
+  rewrite filter_app. rewrite (filter_id _ keepf (cinner e)); [reflexivity|].
+  eapply Forall_weaken; [|exact Hin]. intros l Hl. apply Hl.
+Qed.
+
+Lemma el_p_keep : forall name desc els, c4_desc_ok desc -> Forall cel_ok els ->
+  Forall (fun l => keepf l = true) (flat_map (el_p name desc) els).
+Proof.
+  intros name desc els Hd Hel. rewrite Forall_forall in *. intros l Hl. apply in_flat_map in Hl. destruct Hl as [zs [Hzs Hl]].
+  rewrite el_p_core in Hl. destruct (core_facts name desc zs (tr zs) Hd (Hel zs Hzs)) as [_ [_ [_ G]]].
+  rewrite Forall_forall in G. apply G, Hl.
+Qed.
+
+Lemma el_p_head : forall name desc els, els <> [] -> Forall cel_ok els ->
+  exists x X, flat_map (el_p name desc) els = x :: X /\ x <> "".
+Proof.
+  intros name desc [|z0 els0] Hne Hel; [congruence|]. inversion Hel as [|? ? Hz0 _]; subst.
+  cbn [flat_map]. rewrite el_p_core. destruct (core_block name desc z0 (tr z0) Hz0) as [r [Er _]]. rewrite Er.
+  destruct Hz0 as [Hz0 _]. destruct (sym_p_facts name (fst z0) Hz0) as [_ [_ [_ [_ Hs]]]].
+  cbn [app]. eexists _, _. split; [reflexivity | exact Hs].
+Qed.
+
+Lemma rstripb_last : forall A x, x <> "" -> rstripb (A ++ [x]) = A ++ [x].
+Proof.
+  intros A x Hx. unfold rstripb. rewrite rev_unit. cbn [drop_while_empty]. destruct x as [|c r]; [congruence|].
+  cbn [is_empty rev]. now rewrite rev_involutive.
+Qed.
+
+(* the kept lines of the ECP part, as blocks: every element line is followed by the rest of its element and by the `*`
+   line that opens the next element *)
+Lemma ckept_blocks : forall name ecps' el,
+  flat_map (ckept name) (ecps' ++ [el]) =
+  "*" :: concat (map (eblk name) (map (fun e => (e, 2)) ecps')) ++ eblk name (el, 1).
+Proof.
+  intros name; induction ecps' as [|e ecps' IH]; intros el.
+  - cbn [app flat_map map concat]. rewrite app_nil_r. reflexivity.
+  - cbn [app flat_map map concat]. rewrite (IH el).
+    change (eblk name (e, 2)) with (sym_p name (fst e) :: "*" :: cinner e ++ ["*"; "*"]). unfold ckept.
+    cbn [app]. rewrite <- !app_assoc. cbn [app]. reflexivity.
+Qed.
+
+Lemma tail_blanks : forall k, tail_ok (blanks k).
+Proof. intros k. split; [apply blanks_plain | apply prune_blanks]. Qed.
+
+Lemma tail_last : forall k, tail_ok (blanks k ++ [""; ""; "*"]).
+Proof.
+  intros k. split.
+  - apply Forall_app. split; [apply blanks_plain|]. repeat constructor.
+  - rewrite pr_app by reflexivity. rewrite prune_blanks. reflexivity.
+Qed.
+
+(* the pruned text as blocks *)
+Definition czts (els' : list (Z * list sshell)) (zl : Z * list sshell) : list ((Z * list sshell) * list string) :=
+  map (fun zs => (zs, blanks (tr zs))) els' ++ [(zl, blanks (tr zl) ++ [""; ""; "*"])].
+Definition ceks (ecps' : list (Z * (Z * list epot))) (el : Z * (Z * list epot)) : list ((Z * (Z * list epot)) * nat) :=
+  map (fun e => (e, 2)) ecps' ++ [(el, 1)].
+
+Lemma cpruned_text : forall name desc els' zl ecps' el, c4ecp_ok name desc (els' ++ [zl]) (ecps' ++ [el]) ->
+  prune_lines (cfile_lines name desc (els' ++ [zl]) (ecps' ++ [el])) "!#" false true =
+  concat (map (blkT name desc) (czts els' zl) ++ map (eblk name) (ceks ecps' el)).
+Proof.
+  intros name desc els' zl ecps' el H. destruct (c4ecp_ok_parts _ _ _ _ H) as [_ [_ [Hd [Hel [_ [_ [_ Hecp]]]]]]].
+  remember (els' ++ [zl]) as els eqn:Eels. remember (ecps' ++ [el]) as ecps eqn:Eecps.
+  assert (Hne : els <> []) by (rewrite Eels; destruct els'; discriminate).
+  rewrite prune_c4_unfold. unfold cfile_lines. rewrite map_app, strip_all_lines.
+  assert (Ecp : filter keepf (map strip_ws (cecp_part name desc ecps)) = "" :: "" :: flat_map (ckept name) ecps).
+  { unfold cecp_part. destruct ecps as [|e0 ecps0]; [destruct ecps'; discriminate Eecps|]. remember (e0 :: ecps0) as ecps1.
+    cbn [map]. rewrite (filter_cons_true _ keepf "") by reflexivity. change (strip_ws "") with "".
+    rewrite (filter_cons_true _ keepf "") by reflexivity. rewrite (filter_cons_false _ keepf) by reflexivity.
+    rewrite map_flat_map, filter_flat_map. do 2 f_equal. apply flat_map_ext_in. intros e He.
+    apply kept_cecp_el_lines. rewrite Forall_forall in Hecp. apply Hecp, He. }
+  rewrite filter_app, Ecp. rewrite (filter_cons_true _ keepf "") by reflexivity.
+  rewrite (filter_id _ _ _ (el_p_keep name desc els Hd Hel)).
+  destruct (el_p_head name desc els Hne Hel) as [x [X [EX Hx]]].
+  assert (Edrop : drop_while_empty (("" :: flat_map (el_p name desc) els) ++ "" :: "" :: flat_map (ckept name) ecps) =
+                  flat_map (el_p name desc) els ++ "" :: "" :: flat_map (ckept name) ecps).
+  { cbn [app drop_while_empty is_empty]. rewrite EX. cbn [app drop_while_empty]. destruct x; [congruence | reflexivity]. }
+  rewrite Edrop. rewrite Eecps, ckept_blocks.
+  assert (Elast : exists A, eblk name (el, 1) = A ++ ["*"]).
+  { unfold eblk. cbn [fst snd repeat]. exists (sym_p name (fst el) :: "*" :: cinner el). reflexivity. }
+  destruct Elast as [A EA].
+  assert (Eel : flat_map (el_p name desc) els = concat (map (blk name desc) (map (fun zs => (zs, tr zs)) els')) ++ core name desc zl ++ blanks (tr zl)).
+  { rewrite Eels, flat_map_app, flat_el_p. cbn [flat_map]. rewrite app_nil_r, el_p_core. reflexivity. }
+  rewrite Eel.
+  assert (Eblk : map (blk name desc) (map (fun zs => (zs, tr zs)) els') = map (blkT name desc) (map (fun zs => (zs, blanks (tr zs))) els')).
+  { rewrite !map_map. apply map_ext. intros zs. reflexivity. }
+  rewrite Eblk. unfold czts, ceks. rewrite !map_app, !concat_app. cbn [map concat].
+  change (blkT name desc (zl, blanks (tr zl) ++ [""; ""; "*"])) with (core name desc zl ++ blanks (tr zl) ++ [""; ""; "*"]).
+  rewrite !app_nil_r.
+  match goal with |- rstripb ?L = ?R => replace L with R end.
+  - rewrite EA. rewrite !app_assoc. apply rstripb_last. discriminate.
+  - rewrite <- !app_assoc. cbn [app]. reflexivity.
+Qed.
+
+(* ================================================================== *)
+(* 12. the round trip of the whole file                                *)
+(* ================================================================== *)
+Lemma c4ecp_expected_eq : forall ecps, c4ecp_ecp_expected ecps = map cexp_el ecps.
+Proof. reflexivity. Qed.
+
+Lemma cread_parts_both : forall name desc els ecps, c4ecp_ok name desc els ecps -> ecps <> [] ->
+  c4ecp_read_parts (cfile_lines name desc els ecps) =
+    inr (tmecp_all_order els ecps, c4_expected els, c4ecp_ecp_expected ecps).
+Proof.
+  intros name desc els ecps H Hne. destruct (c4ecp_ok_parts _ _ _ _ H) as [_ [_ [Hd [Hel [Hnd [Himp [Hnde Hecp]]]]]]].
+  specialize (Himp Hne).
+  destruct (exists_last Himp) as [els' [zl Eels]]. destruct (exists_last Hne) as [ecps' [el Eecps]]. subst els ecps.
+  unfold c4ecp_read_parts. rewrite (cpruned_text name desc els' zl ecps' el H). fold el_cond.
+  assert (Fz : Forall cel_ok (map fst (czts els' zl))).
+  { unfold czts. rewrite map_app, map_map. cbn [map fst]. rewrite map_id. exact Hel. }
+  assert (Ft : Forall tail_ok (map snd (czts els' zl))).
+  { unfold czts. rewrite map_app, map_map. cbn [map snd]. apply Forall_app. split; [|constructor; [apply tail_last | constructor]].
+    rewrite Forall_forall. intros T HT. apply in_map_iff in HT. destruct HT as [zs [<- _]]. apply tail_blanks. }
+  assert (Ez : map fst (czts els' zl) = els' ++ [zl]).
+  { unfold czts. rewrite map_app, map_map. cbn [map fst]. now rewrite map_id. }
+  assert (Ee : map fst (ceks ecps' el) = ecps' ++ [el]).
+  { unfold ceks. rewrite map_app, map_map. cbn [map fst]. now rewrite map_id. }
+  assert (Fk : Forall (fun p => 1 <= snd p) (ceks ecps' el)).
+  { unfold ceks. apply Forall_app. split; [|constructor; [cbn; lia | constructor]].
+    rewrite Forall_forall. intros p Hp. apply in_map_iff in Hp. destruct Hp as [e [<- _]]. cbn; lia. }
+  rewrite partition_after_blocks.
+  - unfold bind.
+    pose proof (c4ecp_blocks_electron name desc (czts els' zl) (map (eblk name) (ceks ecps' el)) [] Hd Fz Ft) as B1.
+    cbn [map app] in B1. rewrite B1; [| rewrite Ez; exact Hnd | intros z _ []]. clear B1.
+    rewrite Ez.
+    pose proof (c4ecp_blocks_ecp name (ceks ecps' el) (map fst (c4_expected (els' ++ [zl]))) (c4_expected (els' ++ [zl])) []) as B2.
+    cbn [map filter app] in B2. rewrite app_nil_r in B2. rewrite B2; [| rewrite Ee; exact Hecp | rewrite Ee; exact Hnde]. clear B2.
+    rewrite Ee, <- c4ecp_expected_eq. unfold tmecp_all_order, nin.
+    rewrite c4_expected_keys. unfold c4ecp_ecp_expected at 1. rewrite map_map. reflexivity.
+  - apply Forall_app. split.
+    + rewrite Forall_forall. intros b Hb. apply in_map_iff in Hb. destruct Hb as [[zs T] [<- Hin]].
+      assert (Hzs : cel_ok zs).
+      { rewrite Forall_forall in Fz. apply Fz. apply in_map_iff. exists (zs, T). split; [reflexivity | exact Hin]. }
+      assert (HT : tail_ok T).
+      { rewrite Forall_forall in Ft. apply Ft. apply in_map_iff. exists (zs, T). split; [reflexivity | exact Hin]. }
+      destruct (core_factsT name desc zs T Hd Hzs (proj1 HT)) as [A [B _]]. split; assumption.
+    + rewrite Forall_forall. intros b Hb. apply in_map_iff in Hb. destruct Hb as [[e k] [<- Hin]].
+      assert (He : c4ecp_el_ok e).
+      { rewrite Forall_forall in Hecp. apply Hecp. rewrite <- Ee. apply in_map_iff. exists (e, k). split; [reflexivity | exact Hin]. }
+      rewrite Forall_forall in Fk. pose proof (Fk _ Hin) as Hk. cbn [snd] in Hk.
+      destruct (eblk_facts name e k He Hk) as [A [B _]]. split; assumption.
+Qed.
+
+Lemma c4ecp_roundtrip_exact : c4ecp_roundtrip_stmt.
+Proof.
+  intros name desc els ecps H. destruct ecps as [|e0 ecps0].
+  - apply c4ecp_roundtrip_no_ecp, H.
+  - unfold c4ecp_roundtrip. rewrite (c4ecp_write_lines_ok _ _ _ _ H). unfold bind at 1.
+    rewrite (splitlines_unlines _ (cfile_lines_good _ _ _ _ H)). unfold c4ecp_read.
+    rewrite (cread_parts_both _ _ _ _ H); [reflexivity | discriminate].
+Qed.
+
+
+(* ================================================================== *)
+(* 13. the writer is total, the round trip by components, no number is lost *)
+(* ================================================================== *)
+Lemma c4ecp_write_total : c4ecp_write_total_stmt.
+Proof. intros name desc els ecps H. eexists. apply c4ecp_write_lines_ok, H. Qed.
+
+Lemma cread_parts : forall name desc els ecps, c4ecp_ok name desc els ecps ->
+  c4ecp_read_parts (cfile_lines name desc els ecps) =
+    inr (tmecp_all_order els ecps, c4_expected els, c4ecp_ecp_expected ecps).
+Proof.
+  intros name desc els ecps H. destruct ecps as [|e0 ecps0]; [|apply cread_parts_both; [exact H | discriminate]].
+  destruct H as [H _]. unfold cfile_lines, cecp_part. rewrite app_nil_r.
+  pose proof (read_all_lines name desc els H) as R. unfold c4_read_electron in R. unfold c4ecp_read_parts.
+  destruct (partition_lines_after (prune_lines (all_lines name desc els) "!#" false true) (fun l => ok (is_c4_element_line l)) 1 4)
+    as [e|bs]; [discriminate R|]. unfold bind in *.
+  pose proof (blocks_lift bs [] _ R) as L. cbn [map] in L. rewrite L.
+  unfold tmecp_all_order. cbn [map filter]. rewrite app_nil_r, c4_expected_keys. reflexivity.
+Qed.
+
+Lemma c4ecp_roundtrip_parts : c4ecp_roundtrip_parts_stmt.
+Proof.
+  intros name desc els ecps t H E. rewrite (c4ecp_written_lines name desc els ecps t H E). apply cread_parts, H.
+Qed.
+
+Lemma cinfo_line_tokens : forall n mx, In (Z_to_string n) (tokens_acc (cinfo_line n mx) "").
+Proof.
+  intros n mx. unfold cinfo_line, cinfo_p.
+  change ("    " +++ "NCORE = " +++ Z_to_string n +++ "    LMAX = " +++ Z_to_string mx)
+    with ("    NCORE =" +++ String " " (Z_to_string n +++ String " " ("   LMAX = " +++ Z_to_string mx))).
+  apply tokens_in_mid, int_tok.
+Qed.
+
+Lemma c4ecp_no_number_lost : c4ecp_no_number_lost_stmt.
+Proof.
+  intros name desc els ecps t H E x. rewrite (c4ecp_written_lines name desc els ecps t H E).
+  destruct (c4ecp_ok_parts _ _ _ _ H) as [Hc [_ [_ [Hel [_ [_ [_ Hecp]]]]]]]. split; intros Hx.
+  - (* a number of the electron part: the line is one of the lines of c4_write_electron *)
+    destruct (c4_write_total name desc els Hc) as [t' Et'].
+    destruct (c4_no_number_lost name desc els t' Hc Et' x Hx) as [line [Hl Htok]].
+    rewrite (c4_written_lines name desc els t' Hc Et') in Hl. exists line. split; [|exact Htok].
+    unfold cfile_lines. apply in_or_app. now left.
+  - destruct Hx as [e [He Hx]]. rewrite Forall_forall in Hecp. pose proof (Hecp e He) as Hok.
+    destruct e as [z [n pots]]. cbn [fst snd] in Hx.
+    assert (Hsub : forall line, In line (cecp_el_lines name desc (z, (n, pots))) -> In line (cfile_lines name desc els ecps)).
+    { intros line Hl. unfold cfile_lines. apply in_or_app. right.
+      unfold cecp_part. destruct ecps as [|e0 ecps0]; [destruct He|]. right. right. right. apply in_flat_map. eexists. split; [exact He | exact Hl]. }
+    destruct (c4ecp_el_facts z n pots Hok) as [_ [_ [_ [_ [_ [_ [_ [Hoo Hperm]]]]]]]].
+    destruct Hx as [->|[p [Hp Hx]]].
+    + exists (cinfo_line n (el_mx (z, (n, pots)))). split; [apply Hsub; do 4 right; now left|]. apply cinfo_line_tokens.
+    + pose proof (Permutation_in _ Hperm Hp) as Hpo. rewrite Forall_forall in Hoo. pose proof (Hoo p Hpo) as Hpp.
+      destruct (pot_facts p Hpp) as [_ [Ec [Hg [Hcl [_ [_ [Hts _]]]]]]].
+      destruct (trip_proj _ _ _ Hg Hcl) as [P1 [P2 P3]]. fold (ptrip p) in P1, P2, P3.
+      assert (Ht : exists tr, In tr (ptrip p) /\ In x (ttokrow tr)).
+      { destruct Hx as [Hx|[[c [Hcin Hx]]|[r [Hr ->]]]].
+        - rewrite <- P2 in Hx. apply in_map_iff in Hx. destruct Hx as [[[a b] c] [<- Hin]]. eexists. split; [exact Hin|]. right. right. now left.
+        - rewrite Ec in Hcin. destruct Hcin as [<-|[]]. rewrite <- P3 in Hx. apply in_map_iff in Hx.
+          destruct Hx as [[[a b] c] [<- Hin]]. eexists. split; [exact Hin|]. now left.
+        - rewrite <- P1 in Hr. apply in_map_iff in Hr. destruct Hr as [[[a b] c] [<- Hin]]. eexists. split; [exact Hin|]. right. now left. }
+      destruct Ht as [tr [Htr Hxt]]. exists (cline tr). split.
+      * apply Hsub. unfold cecp_el_lines. cbn [fst snd]. do 5 right. apply in_or_app. left. apply in_flat_map. exists p.
+        split; [exact Hpo|]. unfold cpot_lines, cprows. right. apply in_map, Htr.
+      * unfold cline. destruct (crow_facts tr (Hts tr Htr)) as [_ [_ ->]]. exact Hxt.
+Qed.
+
 Print Assumptions c4ecp_no_ecp.
 Print Assumptions c4ecp_roundtrip_no_ecp.
 Print Assumptions c4ecp_ecp_only_example.
@@ -182,3 +1150,7 @@ Print Assumptions c4ecp_nopoint.
 Print Assumptions c4ecp_noname.
 Print Assumptions c4ecp_markers.
 Print Assumptions c4ecp_example.
+Print Assumptions c4ecp_write_total.
+Print Assumptions c4ecp_roundtrip_exact.
+Print Assumptions c4ecp_roundtrip_parts.
+Print Assumptions c4ecp_no_number_lost.
